@@ -113,6 +113,89 @@ class SimRLock(SimLock):
 		SimLock.release(self)
 
 
+class SimCondition:
+	"""threading.Condition over a simulated (R)Lock."""
+
+	def __init__(self, sim, lock=None):
+		self.sim = sim
+		self.lock = lock if lock is not None else SimRLock(sim)
+		self.waiters = []
+		self.acquire = self.lock.acquire
+		self.release = self.lock.release
+
+	def __enter__(self):
+		self.lock.acquire()
+		return self
+
+	def __exit__(self, *a):
+		self.lock.release()
+		return False
+
+	def wait(self, timeout=None):
+		sim = self.sim
+		t = sim.cur()
+		depth = getattr(self.lock, "depth", 1)
+		self.lock.depth = 1 if hasattr(self.lock, "depth") else None
+		self.lock.release()
+		wid = t.new_wait(("condition", timeout))
+		self.waiters.append((t, wid))
+		if timeout is not None:
+			sim.at(sim.now + max(0, int(round(timeout * 1e9))), lambda: t.wake(wid, "timeout"))
+		reason = sim.block(t)
+		self.lock.acquire()
+		if hasattr(self.lock, "depth"):
+			self.lock.depth = depth
+		return reason != "timeout"
+
+	def wait_for(self, predicate, timeout=None):
+		while not predicate():
+			if not self.wait(timeout):
+				return predicate()
+		return True
+
+	def notify(self, n=1):
+		ws, self.waiters = self.waiters[:n], self.waiters[n:]
+		for t, wid in ws:
+			t.wake(wid, "notified")
+
+	def notify_all(self):
+		self.notify(len(self.waiters))
+
+
+class SimSemaphore:
+	def __init__(self, sim, value=1):
+		self.sim = sim
+		self.value = value
+		self.waiters = []
+
+	def acquire(self, blocking=True, timeout=None):
+		sim = self.sim
+		while self.value <= 0:
+			if not blocking:
+				return False
+			t = sim.cur()
+			wid = t.new_wait(("semaphore",))
+			self.waiters.append((t, wid))
+			if timeout is not None:
+				sim.at(sim.now + max(0, int(round(timeout * 1e9))), lambda: t.wake(wid, "timeout"))
+			if sim.block(t) == "timeout":
+				return False
+		self.value -= 1
+		return True
+
+	def release(self, n=1):
+		self.value += n
+		ws, self.waiters = self.waiters, []
+		for t, wid in ws:
+			t.wake(wid, "released")
+
+	__enter__ = acquire
+
+	def __exit__(self, *a):
+		self.release()
+		return False
+
+
 class SimThreadHandle:
 	"""What `threading.Thread(...)` returns inside the simulation."""
 
@@ -158,6 +241,14 @@ class ThreadingSeam:
 
 	def RLock(self):
 		return SimRLock(self._sim)
+
+	def Condition(self, lock=None):
+		return SimCondition(self._sim, lock)
+
+	def Semaphore(self, value=1):
+		return SimSemaphore(self._sim, value)
+
+	BoundedSemaphore = Semaphore
 
 	def current_thread(self):
 		return self._sim.current
@@ -286,6 +377,15 @@ class SimSocket:
 
 	def setblocking(self, flag):
 		pass
+
+	def settimeout(self, t):
+		pass
+
+	def connect(self, addr):
+		self.peer = tuple(addr)
+
+	def send(self, data):
+		return self.sendto(data, getattr(self, "peer", None))
 
 	def bind(self, addr):
 		self.net.bind(self, addr)
